@@ -397,6 +397,11 @@ def faultAt (k : Nat) (f : ToolResult) : Oracle := fun i _ => if i == k then f e
 /-- the tools disappear from `PATH` before the `k`-th invocation (and stay away) -/
 def missingFrom (k : Nat) : Oracle := fun i _ => if k ≤ i then .missing else .ok
 
+/-- a *set* of faults: the listed invocation indices exit non-zero, and from index `m` on (if given) the tools are gone -/
+def faultsAt (nonzero : List Nat) (missing : Option Nat) : Oracle := fun i _ =>
+  if (match missing with | some m => decide (m ≤ i) | none => false) then .missing
+  else if nonzero.contains i then .nonzero else .ok
+
 /-- no logged invocation failed without being handled by its caller -/
 def Call.clean (c : Call) : Bool := decide (c.result = .ok) || c.handled
 def clean (calls : List Call) : Bool := calls.all Call.clean
@@ -434,5 +439,27 @@ def spec (key phase : String) (fault : Option (Nat × Bool)) (maxLogged : Nat) (
     ++ (if o.ranIn.length ≤ maxLogged then [] else ["continued-after-failure"])
     ++ (if phase == "package" then (if o.outAfter.any (isArtifact key) then ["artifact-after-failure"] else [])
         else (if o.outAfter.all o.outBefore.contains then [] else ["output-changed"]))
+
+/-- one of several failing invocation points, as the harness describes it from the stub log -/
+structure FaultPt where
+  k : Nat
+  handled : Bool       -- it is the probe whose failure the caller catches (a fallback follows)
+  maxLogged : Nat      -- number of invocations the stubs may have seen when this one ends the operation
+  phase : String       -- phase the invocation belongs to (`build`, `package`, `publish`)
+deriving Repr, Inhabited
+
+/-- of several failing invocation points (ascending) the one that has to be reported: the first that is not handled by its
+    caller (after a handled probe the fallback runs, so later faults count); if all are handled, the first -/
+def effectiveFault : List FaultPt → Option FaultPt
+  | [] => none
+  | f :: rest =>
+    if f.handled then (match effectiveFault rest with | some g => if g.handled then some f else some g | none => some f)
+    else some f
+
+/-- the property on one observation under a set of faults -/
+def specSet (key phase : String) (faults : List FaultPt) (o : Obs) : List String :=
+  match effectiveFault faults with
+  | none => spec key phase none 0 o
+  | some f => spec key f.phase (some (f.k, f.handled)) f.maxLogged o
 
 end Pydjinni.Sys.Pkg
